@@ -290,3 +290,168 @@ Proof.
   - intros i Hi. apply filter_In in Hi. destruct Hi as [Hi _].
     apply (in_avals_aget ikey_eqd) in Hi; auto. destruct Hi as [k E]. pose proof (Hk k i E). subst. exact E.
 Qed.
+
+(** what [update_instance] stores, and how it answers *)
+Definition upd_new (s : service) (i0 : inst) (tg : option tag) : inst :=
+  match iget (i_key i0) (s_insts s) with
+  | Some old =>
+      let i1 := if i_ephemeral i0 && negb (i_grpc i0) && i_grpc old
+                then set_origin i0 (i_grpc old) (i_cluster old) (i_client old) else i0 in
+      fst (fst (fst (merge_tag s old i1 tg)))
+  | None => match mget (i_key i0) (s_meta s) with Some pm => set_meta i0 pm | None => i0 end
+  end.
+
+Lemma merge_tag_origin : forall s old i1 tg,
+  let n := fst (fst (fst (merge_tag s old i1 tg))) in
+  i_client n = i_client i1 /\ i_grpc n = i_grpc i1 /\ i_cluster n = i_cluster i1 /\ i_lm n = i_lm i1.
+Proof.
+  intros. subst n. unfold merge_tag. destruct tg as [t|]; cbn; auto.
+  destruct (negb (tag_is_none t)); cbn; auto.
+  destruct (negb (t_enabled t)), (negb (t_ephemeral t)), (negb (t_weight t)), (negb (t_metadata t));
+    cbn; auto; destruct (t_from_update t); cbn; auto; destruct (mget _ _); cbn; auto.
+Qed.
+
+Lemma upd_new_key : forall s i0 tg, i_key (upd_new s i0 tg) = i_key i0.
+Proof.
+  intros. unfold upd_new. destruct (iget _ _).
+  - rewrite merge_tag_key. destruct (_ && _ && _); reflexivity.
+  - destruct (mget _ _); reflexivity.
+Qed.
+
+Lemma svc_update_get : forall s i0 tg fs ik,
+  iget ik (s_insts (fst (fst (fst (svc_update s i0 tg fs))))) =
+  if ikey_eqd ik (i_key i0) then Some (upd_new s i0 tg) else iget ik (s_insts s).
+Proof.
+  intros. unfold svc_update, upd_new. destruct (iget (i_key i0) (s_insts s)) as [old|] eqn:E.
+  - destruct (merge_tag s old _ tg) as [[[i2 meta] rt] pc]. cbn [fst snd svc_with_insts s_insts].
+    unfold iset, iget. apply aget_aset.
+  - cbn [fst snd svc_with_insts s_insts]. unfold iset, iget. apply aget_aset.
+Qed.
+
+Lemma upd_new_origin : forall s i0 tg,
+  let n := upd_new s i0 tg in
+  match iget (i_key i0) (s_insts s) with
+  | Some old =>
+      if i_ephemeral i0 && negb (i_grpc i0) && i_grpc old
+      then i_client n = i_client old /\ i_grpc n = i_grpc old /\ i_cluster n = i_cluster old
+      else i_client n = i_client i0 /\ i_grpc n = i_grpc i0 /\ i_cluster n = i_cluster i0
+  | None => i_client n = i_client i0 /\ i_grpc n = i_grpc i0 /\ i_cluster n = i_cluster i0
+  end.
+Proof.
+  intros. subst n. unfold upd_new. destruct (iget (i_key i0) (s_insts s)) as [old|].
+  - destruct (merge_tag_origin s old (if i_ephemeral i0 && negb (i_grpc i0) && i_grpc old
+                then set_origin i0 (i_grpc old) (i_cluster old) (i_client old) else i0) tg) as (A & B & C & _).
+    cbn zeta in *. rewrite A, B, C. destruct (_ && _ && _); cbn; auto.
+  - destruct (mget _ _); cbn; auto.
+Qed.
+
+Lemma svc_update_replace : forall s i0 tg fs,
+  snd (fst (svc_update s i0 tg fs)) =
+  match iget (i_key i0) (s_insts s) with
+  | Some old => if negb (i_client old =? 0) && negb (i_client (upd_new s i0 tg) =? i_client old)
+                then Some (i_client old) else None
+  | None => None
+  end.
+Proof.
+  intros. unfold svc_update, upd_new. destruct (iget (i_key i0) (s_insts s)) as [old|] eqn:E; auto.
+  pose proof (merge_tag_origin s old (if i_ephemeral i0 && negb (i_grpc i0) && i_grpc old
+                then set_origin i0 (i_grpc old) (i_cluster old) (i_client old) else i0) tg) as (A & _).
+  cbn zeta in A. destruct (merge_tag s old _ tg) as [[[i2 meta] rt] pc]. cbn [fst snd] in *.
+  rewrite A. reflexivity.
+Qed.
+
+(** [remove_instance]: either nothing happens or exactly the addressed key disappears *)
+Lemma svc_remove_spec : forall now s k cl,
+  let r := svc_remove now s k cl in
+  (snd r = None /\ fst r = s) \/
+  (exists old, snd r = Some old /\ iget k (s_insts s) = Some old /\
+               (forall ik, iget ik (s_insts (fst r)) = if ikey_eqd ik k then None else iget ik (s_insts s)) /\
+               s_meta (fst r) = s_meta s /\ s_hset (fst r) = s_hset s /\ s_uset (fst r) = s_uset s /\
+               s_thr (fst r) = s_thr s).
+Proof.
+  intros. subst r. unfold svc_remove.
+  destruct (match cl with Some _ => _ | None => _ end); [left; auto|].
+  destruct (iget k (s_insts s)) as [old|] eqn:E; [|left; auto].
+  right. exists old. cbn [fst snd s_insts s_meta s_hset s_uset s_thr]. repeat split; auto.
+  intros ik. unfold idel, iget. apply aget_adel.
+Qed.
+
+Lemma svc_remove_refused : forall now s k c old,
+  iget k (s_insts s) = Some old -> i_ephemeral old = true -> c <> 0 -> i_client old <> c ->
+  svc_remove now s k (Some c) = (s, None).
+Proof.
+  intros. unfold svc_remove. rewrite H, H0. cbn [andb].
+  destruct (c =? 0) eqn:E1; [apply N.eqb_eq in E1; congruence|].
+  destruct (i_client old =? c) eqn:E2; [apply N.eqb_eq in E2; congruence|]. reflexivity.
+Qed.
+
+Lemma svc_perpetual_healthy_valid_get : forall s k ik,
+  iget ik (s_insts (svc_perpetual_healthy_valid s k)) =
+  if ikey_eqd ik k then
+    match iget k (s_insts s) with
+    | Some i => if negb (i_healthy i) && negb (i_ephemeral i) then Some (set_healthy i true) else Some i
+    | None => None
+    end
+  else iget ik (s_insts s).
+Proof.
+  intros. unfold svc_perpetual_healthy_valid. destruct (iget k (s_insts s)) as [i|] eqn:E.
+  - destruct (negb (i_healthy i) && negb (i_ephemeral i)); cbn [s_insts].
+    + unfold iset, iget. apply aget_aset.
+    + destruct (ikey_eqd ik k); subst; auto.
+  - destruct (ikey_eqd ik k); subst; auto.
+Qed.
+
+(** [do_refresh_process_range] stores each taken-over instance again with [from_cluster = 0] *)
+Definition taken (i : inst) : bool := negb (i_grpc i) && is_from_cluster i.
+Definition localise (i : inst) : inst := set_origin i (i_grpc i) 0 (i_client i).
+
+Lemma refresh_fold_get : forall l s,
+  NoDup (map i_key l) -> (forall i, In i l -> iget (i_key i) (s_insts s) = Some i) ->
+  forall ik, iget ik (s_insts (fold_left refresh_one l s)) =
+             match iget ik (s_insts s) with
+             | Some i => if existsb (fun j => i_key j =? ik) l then Some (localise i) else Some i
+             | None => None
+             end.
+Proof.
+  induction l as [|i l IH]; intros s Hn Hin ik; cbn [fold_left existsb].
+  - destruct (iget ik (s_insts s)); auto.
+  - inversion Hn; subst.
+    assert (G : forall ik', iget ik' (s_insts (refresh_one s i)) =
+                            if ikey_eqd ik' (i_key i) then Some (localise i) else iget ik' (s_insts s)).
+    { intros. unfold refresh_one. cbn [s_insts set_origin i_key]. unfold iset, iget. apply aget_aset. }
+    rewrite IH; auto.
+    + rewrite G. destruct (ikey_eqd ik (i_key i)).
+      * subst. rewrite (Hin i); [|cbn; auto]. rewrite N.eqb_refl. cbn [orb].
+        assert (X : existsb (fun j => i_key j =? i_key i) l = false).
+        { apply not_true_is_false. intros X. apply existsb_exists in X. destruct X as [j [Hj E]].
+          apply N.eqb_eq in E. apply H1. rewrite <- E. apply in_map; auto. }
+        rewrite X. reflexivity.
+      * destruct (i_key i =? ik) eqn:E; [apply N.eqb_eq in E; congruence|]. reflexivity.
+    + intros j Hj. rewrite G. destruct (ikey_eqd (i_key j) (i_key i)) as [e|e].
+      * exfalso. apply H1. rewrite <- e. apply in_map; auto.
+      * apply Hin; cbn; auto.
+Qed.
+
+Theorem svc_refresh_get : forall s ik, svc_inv s ->
+  iget ik (s_insts (svc_refresh s)) =
+  match iget ik (s_insts s) with
+  | Some i => if taken i then Some (localise i) else Some i
+  | None => None
+  end.
+Proof.
+  intros s ik Hs. pose proof Hs as (Hn & Hk & _). unfold svc_refresh. rewrite refresh_fold_get.
+  - destruct (iget ik (s_insts s)) as [i|] eqn:E; auto.
+    destruct (existsb _ (refresh_taken s)) eqn:X.
+    + apply existsb_exists in X. destruct X as [j [Hj Ej]]. apply N.eqb_eq in Ej.
+      unfold refresh_taken in Hj. apply filter_In in Hj. destruct Hj as [Hj Tj].
+      apply (in_avals_aget ikey_eqd) in Hj; auto. destruct Hj as [kj Ekj]. pose proof (Hk _ _ Ekj). subst.
+      assert (X : Some i = Some j) by (rewrite <- E; exact Ekj). inversion X; subst. unfold taken. rewrite Tj. reflexivity.
+    + destruct (taken i) eqn:T; auto. exfalso.
+      assert (existsb (fun j => i_key j =? ik) (refresh_taken s) = true); [|congruence].
+      apply existsb_exists. exists i. split.
+      * unfold refresh_taken. apply filter_In. split; auto. apply (in_avals_aget ikey_eqd); eauto.
+      * rewrite (Hk _ _ E). apply N.eqb_refl.
+  - unfold refresh_taken. apply NoDup_map_filter. apply avals_keys_nodup; auto.
+  - intros i Hi. unfold refresh_taken in Hi. apply filter_In in Hi. destruct Hi as [Hi _].
+    apply (in_avals_aget ikey_eqd) in Hi; auto. destruct Hi as [k E]. pose proof (Hk k i E). subst. exact E.
+Qed.
